@@ -189,7 +189,9 @@ func (msg Message) Generate(w io.Writer, settings GenerateSettings) {
 	msg.generateEncodeBebop(ew, settings, fields)
 	msg.generateDecodeBebop(ew, settings, fields)
 	msg.generateSize(ew, settings, fields)
-	isEmpty := len(msg.Fields) == 0
+	// a message is never empty on the wire: even without fields it is a
+	// length prefix plus a terminator, which the wrappers must write and consume.
+	isEmpty := false
 	writeWrappers(ew, msg.Name, isEmpty, settings)
 }
 
